@@ -196,3 +196,47 @@ Definition spec_ok (i : inputs) (t0 t1 : Z) (obs : verdict) : bool :=
 
 (** what is assumed of the float64 product (validated on every case of every run) *)
 Definition scale_okb (w L n d : Z) : bool := (0 <=? w) && (Z.abs (d * w - n * L) <=? d * eps L).
+
+(** * How the renewal info a certificate carries is produced: [Config.updateARI] (maintain.go),
+      the branch that asks the issuer ([RenewalInfoGetter]) for fresh info.
+
+      [newARI.SameWindow(oldARI) && !oldARI.SelectedTime.IsZero()] => the old selected time is put
+      back; otherwise the fresh info is taken as it is (the acme package selects a time inside the
+      fresh window, or leaves it unset, and [certNeedsRenewal] then improvises one inside the NEW
+      window).  The result goes into the returned certificate, the cache entry and the stored
+      metadata.  [time.Time.Equal] on instants; the zero time is [None]. *)
+Definition optz_eqb (a b : option Z) : bool :=
+  match a, b with
+  | Some x, Some y => x =? y
+  | None, None => true
+  | _, _ => false
+  end.
+Definition ari_eqb (a b : ari_info) : bool :=
+  optz_eqb (sel a) (sel b) && optz_eqb (wstart a) (wstart b) && optz_eqb (wend a) (wend b).
+Definition same_window (a b : ari_info) : bool :=
+  optz_eqb (wstart a) (wstart b) && optz_eqb (wend a) (wend b).
+Definition has_sel (a : ari_info) : bool := match sel a with Some _ => true | None => false end.
+
+Definition refresh_ari (old fresh : ari_info) : ari_info :=
+  if same_window fresh old && has_sel old then Ari (sel old) (wstart fresh) (wend fresh) else fresh.
+
+Definition with_ari (i : inputs) (a : ari_info) : inputs :=
+  Inputs (not_before i) (not_after i) (interval i) (cfg_ratio i) (disable_ari i) a.
+
+(** well-formedness of renewal info: the selected time is zero (unset) or lies inside the window
+    it comes with *)
+Definition ari_wfb (a : ari_info) : bool :=
+  match sel a with
+  | None => true
+  | Some s =>
+      match wstart a, wend a with
+      | Some ws, Some we => (ws <=? s) && (s <=? we)
+      | _, _ => false
+      end
+  end.
+
+(** the property on refreshed info [got] (what updateARI left on a certificate / in storage), given
+    the info it replaced and what the CA answered: it carries the CA's window, and — when both
+    ingredients were well-formed — it is well-formed *)
+Definition refresh_ok (old fresh got : ari_info) : bool :=
+  same_window got fresh && (negb (ari_wfb old && ari_wfb fresh) || ari_wfb got).
